@@ -119,7 +119,7 @@ func Discharge(o *Obligation, opts SolveOpts) *Result {
 		}(s)
 	}
 	// an obligation guarded by a merged block condition is, in parallel, decided path by path (see splitByPath);
-	// the split starts only when the plain query has not been answered within two seconds
+	// the split starts only when the plain query has not been answered within 0.7 seconds
 	type splitOut struct{ status, by string }
 	splitCh := make(chan splitOut, 1)
 	splitRunning := false
@@ -127,7 +127,7 @@ func Discharge(o *Obligation, opts SolveOpts) *Result {
 		splitRunning = true
 		go func() {
 			select {
-			case <-time.After(2 * time.Second):
+			case <-time.After(700 * time.Millisecond):
 				st, by := splitByPath(ctx, o, q, file, opts, res)
 				splitCh <- splitOut{st, by}
 			case <-ctx.Done():
